@@ -54,6 +54,7 @@ fn n0_reenter(vm: &mut Vm<Option<Value>>) -> Result<Value, ExecutionErrorPayload
 /// a native re-enters the interpreter on a script function that loops forever: the instructions
 /// executed inside count against the budget of the run
 pub fn nested_budget<S: Src>(s: &mut S) {
+    cao_lang::verif_hooks::set_skip_error_trace(true);
     let mut vm: V = Vm::verif_new_small(None, 1 << 16, 8, 6).unwrap();
     let mut prog = CaoCompiledProgram::default();
     vm.register_native_function("r", n0_reenter).unwrap();
